@@ -32,6 +32,8 @@ func main() {
 		os.Exit(cmdList(os.Args[2:]))
 	case "replay":
 		os.Exit(cmdReplay(os.Args[2:]))
+	case "baseline":
+		os.Exit(cmdBaseline(os.Args[2:]))
 	default:
 		fmt.Fprintln(os.Stderr, "unknown command", os.Args[1])
 		os.Exit(2)
@@ -455,5 +457,34 @@ func cmdDump(args []string) int {
 			fn.WriteTo(os.Stdout)
 		}
 	}
+	return 0
+}
+
+// vf baseline: records the names of loop-carried and address-taken locals of every function under contract on the
+// current tree (run on the unchanged tree and committed; used only to survive pure renames of locals).
+func cmdBaseline(args []string) int {
+	eng, err := LoadEngine(repoRoot())
+	if err != nil {
+		fmt.Fprintln(os.Stderr, err)
+		return 2
+	}
+	out := map[string]*fnNames{}
+	for k := range eng.specs.Funcs {
+		fn := eng.funcByKey[k]
+		if fn == nil {
+			continue
+		}
+		out[eng.funcName(fn)] = eng.collectNames(fn)
+		for _, an := range fn.AnonFuncs {
+			out[eng.funcName(an)] = eng.collectNames(an)
+		}
+	}
+	data, _ := json.MarshalIndent(out, "", " ")
+	os.MkdirAll(filepath.Join(verifRoot, "baseline"), 0o755)
+	if err := os.WriteFile(filepath.Join(verifRoot, "baseline", "names.json"), data, 0o644); err != nil {
+		fmt.Fprintln(os.Stderr, err)
+		return 2
+	}
+	fmt.Println("baseline names for", len(out), "functions")
 	return 0
 }
